@@ -253,11 +253,15 @@ def run(prog: Program, res: Result, tier: str) -> None:
     ok_first = [e for e in effs if e.kind == "set" and re.fullmatch(rf"StreamInfo\(\[FileInfo\.from_dict\(parse_header\({files}\[0\]\)\)\]\)", e.text())]
     ok_rest = [e for e in effs if e.kind == "expr" and re.fullmatch(r"\$v\d+\.add_entry\(FileInfo\.from_dict\(parse_header\((\w+|L<[^>]*>)\)\)\)", e.text())]
     ok_match = [e for e in effs if e.kind == "expr" and re.fullmatch(rf"match_header\(parse_header\({files}\[0\]\), parse_header\((\w+|L<[^>]*>)\)\)", e.text())]
-    ok_total = [e for e in effs if e.kind == "set" and e.target.endswith("['nsamples']") and e.text().endswith("['stream_info'].get_combined('nsamples')")]
+    tables = {e.target for e in ok_first}
+    ok_total = [e for e in effs if e.kind == "set" and e.target.endswith("['nsamples']") and (
+        e.text().endswith("['stream_info'].get_combined('nsamples')") or
+        any(e.text() == f"{t}.get_combined('nsamples')" for t in tables))]
     loops = [l for l in body_walk(pm.node) if isinstance(l, ast.For)]
     ok_loop = len(loops) == 1 and isinstance(loops[0].iter, ast.Subscript) and isinstance(loops[0].iter.slice, ast.Slice) and \
         loops[0].iter.slice.lower is not None and norm(loops[0].iter.slice.lower) == "1" and loops[0].iter.slice.upper is None and loops[0].iter.slice.step is None
-    ok = bool(ok_first) and bool(ok_rest) and bool(ok_match) and bool(ok_total) and ok_loop
+    ok_stored = [e for e in effs if e.kind == "set" and e.target.endswith("['stream_info']") and e.text() in tables]
+    ok = bool(ok_first) and bool(ok_rest) and bool(ok_match) and bool(ok_total) and bool(ok_stored) and ok_loop
     (res.ok if ok else res.bad)("R7", pm, pm.node, "one FileInfo per file in the given order (headers must match); stream nsamples = sum of the files'" if ok else
                                 "parse_header_multi no longer builds the stream table from every file in order", construct="parse_header_multi", key="sinfo:parse_multi")
     fi = prog.cls(SIG, "FileInfo")
@@ -290,7 +294,7 @@ def run(prog: Program, res: Result, tier: str) -> None:
     res.floor("R1", 8)
     res.floor("R2", 3)
     res.floor("R3", 5)
-    res.floor("R4", 4)
+    res.floor("R4", 3)   # fileid, cumsum, and one in-file seek (two when the first file is a separate branch)
     res.floor("R5", 2)
     res.floor("R6", 3)
     res.floor("R7", 6)
@@ -299,6 +303,8 @@ def run(prog: Program, res: Result, tier: str) -> None:
 F = "sigpyproc/io/fileio.py"
 R = "sigpyproc/readers.py"
 MUTANTS = [
+    {"id": "c02-search-loop-le", "file": F, "expect": "C02.R4", "old": '        fileid = np.where(offset < self.sinfo.cumsum_datalens)[0][0]\n        self._seek2hdr(fileid)\n\n        if fileid == 0:\n            self.file_obj.seek(offset, os.SEEK_CUR)\n        else:\n            file_offset = offset - self.sinfo.cumsum_datalens[fileid - 1]\n            self.file_obj.seek(file_offset, os.SEEK_CUR)\n', "new": '        import itertools\n        data_ends = self.sinfo.cumsum_datalens\n        data_starts = itertools.chain([0], data_ends[:-1])\n        for fileid, (data_start, data_end) in enumerate(zip(data_starts, data_ends, strict=True)):\n            if offset <= data_end:\n                break\n        self._seek2hdr(fileid)\n        self.file_obj.seek(offset - data_start, os.SEEK_CUR)\n'},
+    {"id": "c02-search-loop-from-end", "file": F, "expect": "C02.R4", "old": '        fileid = np.where(offset < self.sinfo.cumsum_datalens)[0][0]\n        self._seek2hdr(fileid)\n\n        if fileid == 0:\n            self.file_obj.seek(offset, os.SEEK_CUR)\n        else:\n            file_offset = offset - self.sinfo.cumsum_datalens[fileid - 1]\n            self.file_obj.seek(file_offset, os.SEEK_CUR)\n', "new": '        import itertools\n        data_ends = self.sinfo.cumsum_datalens\n        data_starts = itertools.chain([0], data_ends[:-1])\n        for fileid, (data_start, data_end) in enumerate(zip(data_starts, data_ends, strict=True)):\n            if offset < data_end:\n                break\n        self._seek2hdr(fileid)\n        self.file_obj.seek(offset - data_end, os.SEEK_CUR)\n'},
     {"id": "c02-open-direct-in-cread", "file": F, "expect": "C02.R1",
      "old": "            if count == 0:\n                break\n            self._seek2hdr(self.ifile_cur + 1)", "new": "            if count == 0:\n                break\n            self._open(self.ifile_cur + 1)"},
     {"id": "c02-seek2hdr-wrong-file", "file": F, "expect": "C02.R1",
@@ -337,6 +343,7 @@ MUTANTS += [
      "old": "        self.entries.append(finfo)", "new": "        self.entries.insert(0, finfo)"},
 ]
 TWINS = [
+    {"id": "c02-twin-search-loop", "file": F, "old": '        fileid = np.where(offset < self.sinfo.cumsum_datalens)[0][0]\n        self._seek2hdr(fileid)\n\n        if fileid == 0:\n            self.file_obj.seek(offset, os.SEEK_CUR)\n        else:\n            file_offset = offset - self.sinfo.cumsum_datalens[fileid - 1]\n            self.file_obj.seek(file_offset, os.SEEK_CUR)\n', "new": '        import itertools\n        data_ends = self.sinfo.cumsum_datalens\n        data_starts = itertools.chain([0], data_ends[:-1])\n        for fileid, (data_start, data_end) in enumerate(zip(data_starts, data_ends, strict=True)):\n            if offset < data_end:\n                break\n        self._seek2hdr(fileid)\n        self.file_obj.seek(offset - data_start, os.SEEK_CUR)\n'},
     {"id": "c02-twin-cread-rename", "file": F,
      "old": "            count_read = min(self.sinfo.entries[self.ifile_cur].datalen, count)\n            data_read = np.fromfile(\n                self.file_obj,\n                count=count_read,\n                dtype=self.bitsinfo.dtype,\n            )\n            count -= len(data_read)\n            data.append(data_read)",
      "new": "            piece = np.fromfile(\n                self.file_obj,\n                dtype=self.bitsinfo.dtype,\n                count=min(self.sinfo.entries[self.ifile_cur].datalen, count),\n            )\n            count -= len(piece)\n            data.append(piece)"},
